@@ -656,7 +656,7 @@ class Engine:
             return a.t == b.t
         for x, y in ((a, b), (b, a)):
             # a module-level object() sentinel is never identical to a str/int/tuple/dataclass value
-            if isinstance(x, Opaque) and x.tag.startswith("sentinel:") and (isinstance(y, (Tup, Ref, Cls, Fn, Exc)) or (isinstance(y, Z) and y.kind not in ("u", "typeof"))):
+            if isinstance(x, Opaque) and (x.tag.startswith("sentinel:") or x.tag == "object()") and (isinstance(y, (Tup, Ref, Cls, Fn, Exc)) or (isinstance(y, Z) and y.kind not in ("u", "typeof"))):
                 return z3.BoolVal(False)
         if isinstance(a, Z) and a.kind == "typeof" or isinstance(b, Z) and b.kind == "typeof":
             ty, c = (a, b) if isinstance(a, Z) and a.kind == "typeof" else (b, a)
